@@ -864,3 +864,40 @@ def c04(tier, replay=None):
     sample_lines(chk, trace, 2, lambda r: {"id": r["id"], "text": r.get("text", [])[:25]})
     chk.part("harness", **info)
     return chk.finish()
+
+
+def c15(tier, replay=None):
+    chk = Check("C15", tier, "fault_enumeration")
+    T = chk.thorough()
+    # (M) read_response / read_sat_response with every solver-side fault, as repaired
+    inv = ("NoVerdictOnFault", "NoPanic", "Unmangled")
+    cfg = pv.write_cfg(chk.work / "SolverSession.cfg", spec="Spec", constants={"MaxLen": 40 if T else 12, "Repaired": "TRUE"}, invariants=inv, properties=("Terminates",))
+    r = pv.tlc_ok("SolverSession", cfg, workers=4, timeout=1200)
+    chk.add_states(r.generated, r.distinct)
+    chk.part("SolverSession_model", states=r.distinct)
+    # non-vacuity: the model of the code as found exhibits the three recorded defects
+    cfg = pv.write_cfg(chk.work / "SolverSessionOld.cfg", spec="Spec", constants={"MaxLen": 12, "Repaired": "FALSE"}, invariants=inv, properties=("Terminates",))
+    rn = pv.tlc("SolverSession", cfg, workers=1, timeout=600)
+    if rn.ok:
+        raise ToolError("SolverSession model no longer distinguishes the repaired from the original code")
+    if replay:
+        rep = json.loads(Path(replay).read_text())
+        trace = chk.work / "faults.ndjson"
+        pv.write_ndjson(trace, [rep["detail"]["record"]])
+        inc = 0
+    else:
+        trace, inc = run_mc(chk, "faults", 12 if T else 3, 3, T, "faults", extra=["--max-pos", 400 if T else 30, "--stall", 12])
+    st = batch_check(chk, "Trace_C15", trace, lambda rj, rec: {"why": rj["why"], "fault": rec.get("cfg", {}).get("fault_kind", ""), "engine": rec.get("cfg", {}).get("engine", "")},
+                     lambda rj, rec: {"record": {k: v for k, v in rec.items() if k not in ("sys", "script")}, "tlc": rj}, shards=8)
+    nf = sum(1 for line in open(trace) if '"ev":"Fault"' in line)
+    nb = sum(1 for line in open(trace) if '"ev":"Base"' in line)
+    chk.cov["traces_validated_against_impl"] = nf
+    chk.cov["evaluations"] = nf
+    chk.cov["distinct_nontrivial"] = nf
+    chk.cov["rule"] = (f"{nb} fault-free bmc / pdr conversations (z3 check-sat-assuming style and yices2 push/pop style, failing and passing systems); for "
+                       "each, every response-bearing position (check-sat, get-value, get-unsat-assumptions; capped) x {error reply of length 0,1,3,6,7,8,9,20 "
+                       "(thorough: 0..40), unknown, empty, garbage, truncated reply + exit, exit, exit with status}; one fault per run through the proxy; "
+                       "a 12 s watchdog turns a call that never returns into a recorded incident; distinct = fault runs")
+    sample_lines(chk, trace, 3, lambda r: {"id": r["id"], "cfg": r.get("cfg"), "outcome": r.get("outcome")})
+    chk.part("runs", base=nb, faults=nf, incidents=inc)
+    return chk.finish()
